@@ -16,11 +16,13 @@ import (
 type Input struct {
 	Soak *SoakInput `json:"soak,omitempty"`
 	Fan  *FanInput  `json:"fan,omitempty"`
+	Jobs *JobsInput `json:"jobs,omitempty"`
 }
 
 type Observed struct {
 	Soak *SoakObs `json:"soak,omitempty"`
 	Fan  *FanObs  `json:"fan,omitempty"`
+	Jobs *JobsObs `json:"jobs,omitempty"`
 }
 
 // ---------------------------------------------------------------------------------------------
@@ -428,7 +430,7 @@ func genSoak(r *Rand, epochs int, spe uint64) (SoakInput, []string) {
 
 func TestC20(t *testing.T) {
 	col := NewCollector("C20", "Check.C20",
-		"a soak case is non-trivial when it has at least one started attestation job and one head event; a fan case when at least one provider answers")
+		"a soak case is non-trivial when it has at least one started attestation job and one head event; a fan case when at least one provider answers; a jobs case when a job is scheduled")
 	col.ShardSize = 25
 	zerolog.SetGlobalLevel(zerolog.TraceLevel) // as vouch's main does (logging.go)
 	rng := NewRand(Seed())
@@ -480,9 +482,33 @@ func TestC20(t *testing.T) {
 			Sample: map[string]any{"input": Input{Fan: in}, "observed": Observed{Fan: &obs}}})
 	}
 
+	addJobs := func(in *JobsInput, tags []string) {
+		obs := runJobs(t, in)
+		if obs.Problem != "" {
+			col.Count("jobs-problem:" + obs.Problem)
+			tags = append(tags, "harness-problem")
+		}
+		scheduled := false
+		for _, o := range in.Ops {
+			col.Count("jobop-" + o.K)
+			if o.K == "schedule" {
+				scheduled = true
+			}
+		}
+		key, _ := json.Marshal(in)
+		last := &JobsObs{Problem: obs.Problem}
+		if len(obs.Rows) > 0 {
+			last.Rows = obs.Rows[len(obs.Rows)-1:]
+		}
+		col.Add(Case{Term: jobsTerm(col.NextID(), in, &obs), Key: string(key), Nontrivial: scheduled, Tags: tags,
+			Sample: map[string]any{"input": Input{Jobs: in}, "observed": Observed{Jobs: last}}})
+	}
+
 	for _, in := range LoadInputs[Input]("C20") {
 		in := in
 		switch {
+		case in.Jobs != nil:
+			addJobs(in.Jobs, []string{"jobs", "corpus"})
 		case in.Soak != nil:
 			addSoak(in.Soak, []string{"soak", "corpus"})
 		case in.Fan != nil:
@@ -493,7 +519,7 @@ func TestC20(t *testing.T) {
 	if n > 0 {
 		// fan-out: every function under test in every family
 		families := []string{"all-at-once", "mixed", "timeout-first", "late-all-ok", "timeout-mid", "silent", "all-fail", "single", "random"}
-		nFan := n * 2 / 3
+		nFan := n / 2
 		for i := 0; i < nFan; i++ {
 			r := rng.Fork()
 			kind := i % nKinds
@@ -512,8 +538,19 @@ func TestC20(t *testing.T) {
 			}
 			addFan(&in, family)
 		}
+		// the real scheduler's job table
+		nJobs := n / 6
+		for i := 0; i < nJobs; i++ {
+			r := rng.Fork()
+			ops := r.Range(5, 40)
+			if i%10 == 0 {
+				ops = r.Range(200, 400)
+			}
+			in, tags := genJobs(r, ops)
+			addJobs(&in, tags)
+		}
 		// soaks: many short, some medium, a few long (50+ epochs)
-		nSoak := n - nFan
+		nSoak := n - nFan - nJobs
 		long := 4
 		if os := EnvInt("VERIF_LONG_SOAKS", -1); os >= 0 {
 			long = os
